@@ -9,6 +9,9 @@ package saml2
 import (
 	"crypto"
 	"crypto/rsa"
+	"crypto/tls"
+
+	"github.com/beevik/etree"
 	"time"
 
 	dsig "github.com/russellhaering/goxmldsig"
@@ -87,3 +90,17 @@ func vB64Str(name string) string
 
 func vIsUnderscoreUUID(id string) bool
 func vFormatUTC(layout string, ns int64) string
+
+func vEncodeDoc(name string, root *etree.Element, mode int) string
+func vEncryptTree(name string, inner *etree.Element, key []byte) string
+func vValidateCtxOK(sp *SAMLServiceProvider) bool
+func vValidateCalls() int
+func vCertRejections() int
+func vScreenedEqualsParsed() bool
+func vScreenCalls() int
+func vWireInflatedLen(name string) int64
+func vSerialised(doc *etree.Document) string
+func vhTLSCert() tls.Certificate
+
+func vIDPStore() dsig.X509CertificateStore
+func vClockBetween(name string, lo, hi int64)
